@@ -141,6 +141,10 @@ type analyzer struct {
 	entryHeld map[*ssa.Function]map[string]bool
 	// (C2) the function an unexported helper belongs to (callers.go)
 	anchor map[*fnInfo]*fnInfo
+	// (C3) functions all of whose calls are visible: parameter -> the arguments of all calls (callers.go)
+	sentinelErr map[string]bool // (C4) package-level `error` variables holding an errors.New / fmt.Errorf value for good
+	visible map[*ssa.Function][]callRef
+	bind    map[*ssa.Parameter][]ssa.Value
 }
 
 func (a *analyzer) qual(p *types.Package) string {
@@ -358,6 +362,10 @@ func (a *analyzer) orig(v ssa.Value, out map[string]bool, seen map[ssa.Value]boo
 		case *ssa.Call:
 			if x.Index == 0 && a.callFresh(t) {
 				out[fresh] = true
+			} else if rs := a.visibleResults(t, x.Index); rs != nil {
+				for _, r := range rs {
+					a.orig(r, out, seen) // (C3)
+				}
 			} else {
 				a.byType(v, out)
 			}
@@ -374,11 +382,23 @@ func (a *analyzer) orig(v ssa.Value, out map[string]bool, seen map[ssa.Value]boo
 		}
 		if a.callFresh(x) {
 			out[fresh] = true
+		} else if rs := a.visibleResults(x, 0); rs != nil {
+			for _, r := range rs {
+				a.orig(r, out, seen) // (C3) what the callee returns
+			}
 		} else {
 			a.byType(v, out)
 		}
+	case *ssa.Parameter:
+		if args, ok := a.bind[x]; ok {
+			for _, arg := range args {
+				a.orig(arg, out, seen) // (C3) what the callers hand over
+			}
+			return
+		}
+		a.byType(v, out)
 	default:
-		// Parameter and anything else: nameable only by type
+		// anything else: nameable only by type
 		a.byType(v, out)
 	}
 }
@@ -414,6 +434,14 @@ func (a *analyzer) ptrLocs(p ssa.Value, seen map[ssa.Value]bool) []string {
 		return nil
 	}
 	switch x := p.(type) {
+	case *ssa.Parameter:
+		if args, ok := a.bind[x]; ok {
+			var out []string
+			for _, arg := range args {
+				out = append(out, a.ptrLocs(arg, seen)...) // (C3) the cells the callers hand over
+			}
+			return out
+		}
 	case *ssa.Alloc:
 		return nil
 	case *ssa.Global:
@@ -685,6 +713,9 @@ func (a *analyzer) collect(fi *fnInfo) {
 	}
 	leak := func(ins ssa.Instruction, how string, v ssa.Value) {
 		for _, g := range a.globalRefs(v) {
+			if a.sentinelErr[g] {
+				continue // (C4) an immutable error value of the standard library (callers.go)
+			}
 			fi.sites = append(fi.sites, site{kind: kLeak, tgt: g, held: how, block: ins.Block()})
 		}
 	}
@@ -726,6 +757,9 @@ func (a *analyzer) collect(fi *fnInfo) {
 				return
 			}
 		}
+		if f := c.StaticCallee(); f != nil && a.visible[f] != nil {
+			return // (C3) the callee's parameters stand for these arguments: a leak shows where the callee lets them go
+		}
 		for _, arg := range c.Args {
 			leak(ins, "passed on", arg)
 		}
@@ -747,6 +781,9 @@ func (a *analyzer) collect(fi *fnInfo) {
 					leak(ins, "stored", x.Val)
 				}
 			case *ssa.Return:
+				if a.visible[fn] != nil {
+					break // (C3) the callers' call values stand for these results
+				}
 				for _, r := range x.Results {
 					leak(ins, "returned", r)
 				}
@@ -1091,6 +1128,8 @@ func main() {
 			}
 		}
 	}
+	a.computeBindings()
+	a.computeSentinels()
 	// functions that return a freshly allocated object (first result), to a fixed point
 	for changed := true; changed; {
 		changed = false
@@ -1145,6 +1184,9 @@ func main() {
 					fi.escapes = true
 				}
 			}
+		}
+		if a.visible[f] != nil {
+			fi.escapes = false // (C3) every call of it is a visible static call: foreign code cannot reach it directly
 		}
 	}
 	a.computeAnchors()
@@ -1270,6 +1312,27 @@ func main() {
 					changed = true
 					break
 				}
+			}
+		}
+	}
+	// (C3) ... and the functions all of whose calls are visible and lie in such functions: they too run
+	// only during package initialisation
+	for changed := true; changed; {
+		changed = false
+		for i, fi := range a.fns {
+			calls := a.visible[fi.fn]
+			if initOnly[i] || calls == nil {
+				continue
+			}
+			all := true
+			for _, c := range calls {
+				if !initOnly[fnID[c.caller.name]] && c.caller.fn.Synthetic != "package initializer" {
+					all = false
+				}
+			}
+			if all {
+				initOnly[i] = true
+				changed = true
 			}
 		}
 	}
